@@ -4,6 +4,11 @@ import json, subprocess
 
 # id: (level, engine, technique, level text, level note, design ref)
 CHECKS = {
+ "C17": ("model_checking", "explore",
+         "exhaustive enumeration of the PROJ program tree (steps x modifiers x pipeline options x layouts), Plain::op(PROJ) vs. an independent translator's Geodesy counterpart",
+         "Every PROJ pipeline of 1..2 steps over 11 shared operator forms (incl. k -> k_0 and a/rf -> ellps) x {none, inv, omit_fwd, omit_inv} per step, and 3 steps over a reduced set (thorough: 6 forms at length 3, 2 at length 4), crossed with pipeline-level inv, three global sets (none, ellps, keys clashing with step-local ones), three '+' styles, three layouts (one line, line per step, CRLF with leading and trailing comments), explicit/implicit proj=pipeline and modifier before/after proj=: the operator Plain instantiates must have the fingerprint of the harness-rendered Geodesy counterpart (directions exchanged for pipeline-level inv); parse_proj must be idempotent; init clauses and nested pipelines refused; Geodesy texts (also ones containing the substring proj) must keep their meaning.",
+         "Trusts the harness translator (globals first, locals after, order kept) and that shared operators mean the same in both syntaxes. One-step proj=pipeline definitions carrying omit_* are not judged (counterpart debatable).",
+         "DESIGN.md §3 C17"),
  "C16": ("model_checking", "space",
          "deviation-bounded exhaustive enumeration of renderings (all with <= 2, thorough <= 3, deviating sites) and complete per-type spelling alphabets, real code vs. canonical rendering / reference parsers",
          "For 11 structured definitions (single steps, pipelines, directional steps, macro invocations with arguments, indexed keys, stack steps, adaptor macros) every rendering with at most 2 (thorough: 3) deviating sites out of whitespace kind / line end / continuation colon / adversarial comments / blank lines / empty steps / modifier position / subscript spelling / </> sugar, plus uniform renderings, must give the same fingerprint, the same typed parameters and the same token-sorted step list as the canonical rendering, and normalize must be idempotent on each; a harness-registered operator with a required and an optional key per OpParameter variant is instantiated with every spelling of per-type alphabets (488 real spellings incl. sexagesimal x hemisphere x sign, integers at the type limits, series, text lists, multi-byte) and compared with reference parsers, incl. defaults, required keys, last-wins and unknown keys.",
@@ -73,7 +78,7 @@ def main():
         },
         "engines": [
             {"name": "space", "path": "/verif/mc/src/engine.rs", "kind_free_text": "exhaustive mixed-radix product enumeration on 16 threads (par_range/decode)", "serves_properties": ["C11", "C16", "C19"]},
-            {"name": "explore", "path": "/verif/mc/src/props", "kind_free_text": "explicit-state / program-tree exploration of the real API against reference models written in Rust", "serves_properties": ["C03", "C04", "C12"]},
+            {"name": "explore", "path": "/verif/mc/src/props", "kind_free_text": "explicit-state / program-tree exploration of the real API against reference models written in Rust", "serves_properties": ["C03", "C04", "C12", "C17"]},
             {"name": "workers", "path": "/verif/mc/src/engine.rs", "kind_free_text": "worker subprocesses (2 MiB stack, 4 GiB address space, watchdog) for hang / overflow / abort detection", "serves_properties": ["C04"]},
         ],
         "checks": checks,
